@@ -1,11 +1,11 @@
 SPECIFICATION Spec
 CONSTANTS
   Cats = {"runtime", "syntax", "none"}
-  Prios = {"none", "high"}
+  Prios = {"none"}
   Trigs = {FALSE, TRUE}
-  Muteds = {FALSE, TRUE}
+  Muteds = {FALSE}
   Kinds = {"Mistake", "Compliment"}
-  Elses = {FALSE, TRUE}
+  Elses = {FALSE}
   Labels = {"a", "b"}
   Flds = {"f1", "f2", "f3"}
   Corrects = {"F"}
